@@ -10,19 +10,25 @@ META = {
             'receives a file above MaxFileSize (a file of exactly the limit is extracted); once cancelled a walk step starts no extraction and returns an error, and the attempts '
             'made after a cancellation from inside Extract all concern the file being handled. Exact behaviour (errors not fatal, extractors do not panic): with an inode limit the scan fails '
             'with the MaxInodes error exactly when the forest holds more inodes to visit than the limit (visitsScan, defined on trees and fault plans only) and reports min(visitsScan, MaxInodes) '
-            'visited inodes (C10_inodes_exact); cancelled from inside the k-th Extract it makes exactly the attempts of the handleFile calls up to and including the one holding that Extract '
-            '(the remaining extractors of that file still run), nothing afterwards, and fails with the context error iff a handleFile call remained (C10_cancel_trace, C10_cancel_outcome, '
-            'C10_cancel_prefix: the attempts made are a prefix of mustExtract and the scan fails whenever an owed attempt was not made). The image-layer byte limit is checked through the C04 image stream.',
+            'visited inodes (C10_inodes_exact_limitcfg); cancelled from inside the k-th Extract it makes exactly the attempts of the handleFile calls up to and including the one holding that Extract '
+            '(the remaining extractors of that file still run), nothing afterwards, and fails with the context error iff a handleFile call remained (C10_cancel_trace_cancelcfg, C10_cancel_outcome_cancelcfg, '
+            'C10_cancel_prefix_cancelcfg: the attempts made are a prefix of mustExtract and the scan fails whenever an owed attempt was not made). The image-layer byte limit is checked through the C04 image stream.',
     'note': 'Trusted as in C01. "fails when the tree holds more inodes" and "reports failure whenever work remained" are theorems (via run_trace: model A = sequential machine over the '
             'specification trace for every limit and cancellation point) AND are checked end to end: under the theorems\' hypotheses the implementation\'s err / visited count / Extract calls must '
-            'equal the specification side (specvisits, cancelOutcome). Fatal-error configurations and panicking extractors are outside the two exact theorems (covered by the invariants and the '
-            'correspondence). standalone.Run / detector.Run cancellation: see C20 (C20_once_prefix).',
+            'equal the specification side (specvisits, cancelOutcome). "Fails when the tree holds more" holds for EVERY configuration without a panicking extractor (C10_fails_when_more). Outside the two exact classes the oracle still has a '
+            'SPECIFICATION verdict: C10_machine_any — without a panicking extractor the scan ends with the filesystem error (possible only with ErrorOnFSErrors) or its error / visited count / Extract calls are '
+            'those the sequential machine of Spec/WalkMachine.lean prescribes on the specification\'s trace (mspecerr/mspecvis/mspeccalls; covers limit + cancellation together, cancellation before the scan, and '
+            'fatal configurations that do not fail with the fs error). Model-tie only: configurations with a panicking extractor, and WHICH of fs / other outcome a fatal + limit/cancel configuration takes '
+            '(the evidence distribution lists, per case class, which verdicts applied: B benign, F fatal, L limit, C cancel, M machine, - none). Cancellation BETWEEN two handleFile calls after a call that ran no '
+            'Extract is not expressible in the model and not producible by the harness: no theorem at scan level (C10_cancel_between / C10_cancel_between_run_cancelcfg cover the points that follow a call with an Extract). '
+            'The limits stream draws the cancellation point from 1 .. (owed Extract calls + 2) and puts two thirds of the cancelling cases into the exact class. standalone.Run / detector.Run cancellation: see C20 (C20_once_prefix).',
 }
 THEOREMS = ['Scalibr.Walk.C10_inodes', 'Scalibr.Walk.C10_size', 'Scalibr.Walk.C10_cancel_walk', 'Scalibr.Walk.C10_cancel_same_file',
             'Scalibr.Walk.C10_cancel_before', 'Scalibr.Walk.walkNode_inv', 'Scalibr.Walk.runRoots_visited', 'Scalibr.Walk.runRoots_sizeInv',
-            'Scalibr.Walk.C10_inodes_exact', 'Scalibr.Walk.C10_cancel_trace', 'Scalibr.Walk.C10_cancel_prefix', 'Scalibr.Walk.C10_cancel_outcome', 'Scalibr.Walk.run_trace',
-            'Scalibr.Walk.C10_cancel_before_ctx', 'Scalibr.Walk.C10_visits_vs_inodes', 'Scalibr.Walk.C10_fails_when_more', 'Scalibr.Walk.C10_fails_iff_more',
-            'Scalibr.Walk.C10_cancel_between', 'Scalibr.Walk.C10_early_failure_witness']
+            'Scalibr.Walk.C10_inodes_exact_limitcfg', 'Scalibr.Walk.C10_cancel_trace_cancelcfg', 'Scalibr.Walk.C10_cancel_prefix_cancelcfg', 'Scalibr.Walk.C10_cancel_outcome_cancelcfg', 'Scalibr.Walk.run_trace',
+            'Scalibr.Walk.C10_cancel_before_ctx_partial', 'Scalibr.Walk.C10_visits_vs_inodes', 'Scalibr.Walk.C10_fails_when_more', 'Scalibr.Walk.C10_fails_iff_more_partial',
+            'Scalibr.Walk.C10_cancel_between', 'Scalibr.Walk.C10_early_failure_witness', 'Scalibr.Walk.C10_fails_when_more_limitcfg', 'Scalibr.Walk.C10_machine_any',
+            'Scalibr.Walk.C10_cancel_between_run_cancelcfg']
 
 LAYER_THEOREMS = ['Scalibr.Overlay.C10_layer_bytes', 'Scalibr.Overlay.C10_layer_bytes_loader', 'Scalibr.Overlay.C10_layer_bytes_final',
                   'Scalibr.Overlay.C10_layer_bytes_boundary', 'Scalibr.Overlay.C10_disk_bytes']
@@ -45,7 +51,7 @@ def run(ctx):
         if mi > 0 and fi.get('vis', '0').isdigit() and int(fi['vis']) > mi:
             return 'AfterInodeVisited ran %s times with MaxInodes=%d' % (fi['vis'], mi)
         if fm.get('limithyp') == '1' and fm.get('specvisits', '').isdigit():
-            # theorem C10_inodes_exact (hypothesis LimitCfg): fails exactly when the forest holds more inodes to visit than
+            # theorem C10_inodes_exact_limitcfg (hypothesis LimitCfg): fails exactly when the forest holds more inodes to visit than
             # the limit (specification: visitsScan), and reports exactly min(visitsScan, MaxInodes) visited inodes
             sv = int(fm['specvisits'])
             want_err, want_vis = ('maxinodes' if sv > mi else 'none'), str(min(sv, mi))
@@ -53,13 +59,16 @@ def run(ctx):
                 return 'MaxInodes=%d and the scan has %d inodes to visit: expected err=%s vis=%s, the scan reported err=%s vis=%s' % (
                     mi, sv, want_err, want_vis, fi.get('err'), fi.get('vis'))
         if fm.get('cancelhyp') == '1' and 'cspecerr' in fm:
-            # theorem C10_cancel_outcome (hypothesis CancelCfg): every handleFile call up to and including the one holding the
+            # theorem C10_cancel_outcome_cancelcfg (hypothesis CancelCfg): every handleFile call up to and including the one holding the
             # k-th Extract is made in full, nothing after it; the scan fails (context error) iff a call remained
             want = (fm['cspecerr'], fm.get('cspecvis'), fm.get('cspeccalls'))
             got = (fi.get('err'), fi.get('vis'), fi.get('calls'))
             if got != want:
                 return 'context cancelled inside Extract #%d: expected err=%s vis=%s calls=%s, the scan reported err=%s vis=%s calls=%s' % (
                     (ca,) + want + got)
+        v = W.oracle_machine(case, fi, fm)   # every configuration without a panicking extractor (limit + cancellation together, cancelled before, fatal)
+        if v:
+            return v
         calls = W.fl(fi.get('calls'))
         if mx > 0:
             for cl in calls:
@@ -75,8 +84,9 @@ def run(ctx):
                     return 'Extract call %s started on another file after the context was cancelled in call #%d (%s)' % (cl, ca, calls[ca - 1])
             # work remained -> failure must be reported.  "Work remained" is read from the SPECIFICATION side (cspecerr =
             # cancelOutcome on the specification's trace: a handleFile call remained after the cancelling one) wherever the
-            # specification has a verdict (CancelCfg, theorem C10_cancel_outcome); in the other classes (inode limit, fatal
+            # specification has a verdict (CancelCfg, theorem C10_cancel_outcome_cancelcfg); in the other classes (inode limit, fatal
             # errors or a panicking extractor together with the cancellation) only the model's verdict exists
+            # (with a panicking extractor in the table; everywhere else oracle_machine above has already judged the outcome exactly)
             remained = fm.get('cspecerr') == 'ctx' if fm.get('cancelhyp') == '1' else fm.get('err') == 'ctx'
             if remained and fi.get('err') == 'none':
                 return 'cancelled with work remaining but the scan reported success'
